@@ -388,6 +388,15 @@ impl Driver {
                         )?;
                     }
                     if probe {
+                        // the logged move to Committing IS the commit decision: a client's abort()
+                        // arriving after the restart must not overturn it
+                        if ph == TxPhase::Committing && coord.abort(*id, "probe").is_ok() {
+                            ctx.fail(
+                                format!("committing-tx-aborted{suffix}"),
+                                format!("{what}: transaction {id} was logged in phase Committing (the commit decision); abort() succeeded after recovery"),
+                            )?;
+                            continue;
+                        }
                         let r = match ph {
                             TxPhase::Prepared => coord.commit(*id).map_err(|e| e.to_string()),
                             TxPhase::Committing => coord.complete_commit(*id).map_err(|e| e.to_string()),
